@@ -633,7 +633,7 @@ def prove_obligation(ob, facts, timeout_ms):
     last = None
     for stage_timeout, portfolio in ((quick, False), (timeout_ms, True)):
         for suffix, g, fs in variants:
-            v = smt.prove(g, fs, stage_timeout, portfolio=portfolio)
+            v = smt.prove(g, fs, stage_timeout, portfolio=portfolio, skip_default=portfolio)
             if v["status"] == "proved":
                 v["backend"] += suffix
                 return v
